@@ -436,9 +436,13 @@ def native_replay(prop, job, inputs, tag):
     srcs = job.native_srcs if job.native_srcs is not None else (job.srcs if job.mode == "ring" else [])
     cmd = ["gcc"] + SAN + def_flags(defs) + incl_flags() + prelude + [harness_path(job)] + \
           [src_path(s) for s in srcs] + [lib, "-o", exe] + NATIVE_LIBS
-    rc, out, _ = sh(cmd, cwd=wd, timeout=300, mem_gb=64)
-    if rc != 0:
-        return dict(outcome="replay-build-failed", output=out.decode(errors="replace")[-3000:], cmd=" ".join(cmd))
+    stampf = exe + ".cmd"
+    if not (os.path.exists(exe) and os.path.exists(stampf) and open(stampf).read() == " ".join(cmd) and os.path.getmtime(exe) >= os.path.getmtime(lib)
+            and os.path.getmtime(exe) >= os.path.getmtime(harness_path(job))):
+        rc, out, _ = sh(cmd, cwd=wd, timeout=300, mem_gb=64)
+        if rc != 0:
+            return dict(outcome="replay-build-failed", output=out.decode(errors="replace")[-3000:], cmd=" ".join(cmd))
+        open(stampf, "w").write(" ".join(cmd))
     inp = os.path.join(wd, "input_%s.txt" % tag)
     with open(inp, "w") as f:
         for k, hx, _ in inputs:
